@@ -73,6 +73,9 @@ def events(tier):
             for e in exps:
                 for sp in (0, 1):
                     out.append(('map', n, a, e, sp))
+            if ADDRS[a] not in NAMES:
+                # sp=2: an already-past expiry, and the NEXT event arrives before the reactor turns (same chunk of data)
+                out.append(('map', n, a, 0, 2))
         out.append(('err', n))
     for d in range(len(ADVANCES)):
         out.append(('adv', d))
@@ -90,7 +93,7 @@ def render(ev, now):
     if off is None:
         return '%s %s NEVER' % (NAMES[n], ADDRS[a]) + (' CACHED="NO"' if sp else '')
     utc = (EPOCH + real_datetime.timedelta(seconds=now + off)).strftime(FMT)
-    if sp == 0:
+    if sp in (0, 2):
         return '%s %s "%s"' % (NAMES[n], ADDRS[a], utc)
     # local time field deliberately differs (as if the local zone were UTC+2): EXPIRES= is authoritative
     local = (EPOCH + real_datetime.timedelta(seconds=now + off + 7200)).strftime(FMT)
@@ -171,6 +174,8 @@ class Run(object):
     def step(self, ev, record, check, already_applied=False):
         before = 0 if already_applied else len(self.lst.calls)
         present_before = set(self.ref)
+        after_noturn = getattr(self, 'noturn', False)
+        self.noturn = ev[0] == 'map' and ev[4] == 2
         expect = []      # list of acceptable listener-call multisets for this step, as sorted tuples
         try:
             if ev[0] == 'adv':
@@ -205,6 +210,8 @@ class Run(object):
                         expect = [()] if was else [(('added', name),)]
                     if not already_applied:
                         self.deliver(line)
+                    if self.noturn:
+                        return      # whether the mapping is visible until the reactor turns is not stated: judged after the next event
                     self.clock.advance(0)
         except Exception as e:
             self.viol.append(('exception', '%s/%s' % (type(e).__name__, ev[0]),
@@ -213,7 +220,7 @@ class Run(object):
         if not check:
             return
         calls = tuple(sorted(self.lst.calls[before:]))
-        if calls not in expect:
+        if calls not in expect and not after_noturn:
             kind = ev[0] if ev[0] != 'map' else ('map-' + ('replace' if NAMES[ev[1]] in present_before else 'new')
                                                  + ('-past' if (EXPIRIES[ev[3]][1] or 1) <= 0 else ''))
             self.viol.append(('listener-calls', kind,
